@@ -40,6 +40,7 @@ type segCase struct {
 	// io.EOF with them; single reads at these offsets return (0, nil) first
 	EOFWithData bool  `json:"eof_with_data,omitempty"`
 	Empty       []int `json:"empty_reads_at,omitempty"`
+	EmptyEach   bool  `json:"empty_read_before_each_read,omitempty"`
 }
 
 type segResult struct {
@@ -139,6 +140,7 @@ func runSeg(c segCase) (*segResult, *fail) {
 		}
 		s.C2S.EmptyReadsAt(empty)
 		s.C2S.EOFWithData(c.EOFWithData)
+		s.C2S.EmptyBeforeEachRead(c.EmptyEach)
 		before := s.S2C.Written()
 		if c.EOFWithData {
 			s.C2S.WriteFinal(stream)
@@ -704,6 +706,7 @@ func TestC17(t *testing.T) {
 		if c.Path == "reader" {
 			// deliveries io.Reader allows besides plain splits
 			c.EOFWithData = rapid.IntRange(0, 2).Draw(rt, "eofdata") == 0
+			c.EmptyEach = rapid.IntRange(0, 3).Draw(rt, "emptyeach") == 0
 			for k := rapid.IntRange(0, 2).Draw(rt, "nempty"); k > 0 && rapid.Bool().Draw(rt, "empty"); k-- {
 				// (an empty read happens where a read starts: at a split)
 				e := rapid.IntRange(0, len(stream)-1).Draw(rt, "emptyat")
